@@ -252,6 +252,24 @@ def run(ctx):
                 if "metadata" in nr:
                     k = strip_none(nv.kind(nr["metadata"]))
                     res.add("S-HASHFIELDS", f, norm(nr["metadata"]), "node-metadata", "ok" if k == META else ("unknown" if isinstance(k, (_Top, Union)) else "violation"), f"kind {k!r}", loc(nv.fi, a))
+            # every node and every hyperedge has a record: a record that is emitted only when its metadata / weight is "non-empty"
+            # makes a node without metadata (and without hyperedges) invisible to the hash
+            for rv_, a, rec in list(nrecs) + list(erecs):
+                conds = [i.test for i in rv_.enclosing_all(a, (ast.If,))]
+                for comp in rv_.enclosing_all(a, (ast.ListComp, ast.GeneratorExp, ast.SetComp, ast.DictComp)):
+                    conds += [c_ for g_ in comp.generators for c_ in g_.ifs]
+                value_names = {x.id for fld in rec.values() for x in ast.walk(fld) if isinstance(x, ast.Name)}
+                hit = None
+                for t_ in conds:
+                    ti = rv_.inline(t_, depth=2)
+                    about_tables = any(isinstance(x, ast.Attribute) and x.attr in ("_node_metadata", "_edge_metadata", "_weights") for x in ast.walk(ti)) or any(isinstance(x, ast.Call) and isinstance(x.func, ast.Attribute) and x.func.attr in ("get_node_metadata", "get_edge_metadata", "get_weight") for x in ast.walk(ti))
+                    if about_tables:
+                        hit = t_
+                what = "node" if "node" in rec else "hyperedge"
+                if hit is not None:
+                    res.violation("S-HASHFIELDS", f, norm(hit)[:80], what + "-record:always", f"the {what} record enters the hash pre-image only when `{norm(hit)[:50]}`: a {what} whose metadata is empty has no record, so two hypergraphs that differ by such a {what} (an isolated node without metadata) get the same hash", loc(rv_.fi, a))
+                else:
+                    res.ok("S-HASHFIELDS", f, norm(a)[:60], what + "-record:always", loc(rv_.fi, a))
         # ---- S-HASHSTALE: tables read by the hash are pruned by the removal operations
         with res.guard(f"S-HASHSTALE of {d}"):
             pruned = set()
